@@ -222,6 +222,21 @@ PROPS['C06'] = {
     ],
 }
 
+PROPS['C08'] = {
+    'title': 'Convex hull is the smallest convex polygon containing the input',
+    'level': 'proof',
+    'verus': [],
+    'kani': [
+        ('geo', 'c08.rs', r'^c08_k_(lex_cmp_and_least_index|swap_with_first_and_remove)$', 'complete', 'quick'),
+        ('geo', 'c08.rs', r'^c08_k_partition_slice$', 'bounded', 'quick'),
+    ],
+    'trusted': ['helpers only: lex_cmp / least_index / least_and_greatest_index (4 lattice points, complete), swap_with_first_and_remove (all indices of a 4-slice), partition_slice (slices <= 5, any threshold predicate)'],
+    'undecided_clauses': [
+        'the hull postcondition itself (closed, counter-clockwise, strictly convex, vertices are inputs, contains all inputs) for quick_hull / graham_hull / trivial_hull: CBMC runs out of memory or time on sort_unstable_by and the recursive hull_set even for 3-4 symbolic points (harnesses c08_k_trivial_hull_3, c08_k_quick_hull_4, c08_k_graham_hull_4 are kept in contracts/kani/geo/c08.rs but are not registered); Verus cannot take the iterator chains',
+        'minimum_rotated_rect (trigonometry)',
+    ],
+}
+
 NOT_APPLICABLE = {
     'C16': 'every clause is an identity between compositions of sin/cos/atan2/asin/sqrt/tan/ln in f64 (or calls into geographiclib-rs); Verus leaves float arithmetic uninterpreted and CBMC models libm as nondeterministic, so no contract stronger than "returns an f64" is provable',
     'C20': '2-safety hyper-property over runs, thread-pool sizes and hash seeds; Kani has no threads and compiles RandomState/rayon away, Verus cannot parse the rayon/hashbrown code; no contract within reach can express it',
